@@ -379,11 +379,11 @@ pub fn sim_record(args: &[String]) -> Value {
     let mut out = TraceOut::new(&args[2]);
     let mut rng = StdRng::seed_from_u64(seed ^ 0xc20);
     let (mut bytes, mut panics) = (0u64, 0u64);
-    // optional 4th argument: run only the plan with this index (reproduction of a single run)
+    // optional 4th argument: run only the plan with this index, in this process
     let only: Option<usize> = args.get(3).and_then(|x| x.parse().ok());
-    for k in 0..count {
-        let p = plan(seed.wrapping_mul(1000) + k as u64, &mut rng, k);
-        if only.is_some_and(|o| o != k) { continue; }
+    let plans: Vec<Plan> = (0..count).map(|k| plan(seed.wrapping_mul(1000) + k as u64, &mut rng, k)).collect();
+    if let Some(k) = only {
+        let p = plans[k].clone();
         out.emit(json!({"ev": "reset", "transport": "udp-sim", "plan": serde_json::to_value(&p).unwrap()}));
         for e in run_sim(p) {
             if e["ev"] == "r" { bytes += e["len"].as_u64().unwrap(); }
@@ -391,6 +391,37 @@ pub fn sim_record(args: &[String]) -> Value {
             out.emit(e);
         }
         out.emit(json!({"ev": "run_end"}));
+        let n = out.finish();
+        return json!({"events": n, "runs": 1, "bytes_read": bytes, "panics": panics});
+    }
+    // every run in a process of its own: a stalled simulation panics inside the executor and the destructors of the
+    // streams then panic again (no scheduler scope), which aborts the process - that must end one run, not the recording
+    let exe = std::env::current_exe().unwrap();
+    let idx: Vec<usize> = (0..count).collect();
+    let mut results = par_map(&idx, 6, |_, k| {
+        let tmp = format!("{}.run{}", args[2], k);
+        let o = std::process::Command::new(&exe).args(["dcstream-sim", &args[0], &args[1], &tmp, &k.to_string()]).output();
+        let ok = matches!(&o, Ok(o) if o.status.success());
+        let lines = if ok { std::fs::read_to_string(&tmp).unwrap_or_default() } else { String::new() };
+        let _ = std::fs::remove_file(&tmp);
+        let why = match &o { Ok(o) => format!("{} {}", o.status, String::from_utf8_lossy(&o.stderr).lines().last().unwrap_or("")), Err(e) => e.to_string() };
+        (*k, ok, lines, why)
+    });
+    results.sort_by_key(|r| r.0);
+    for (k, ok, lines, why) in results {
+        if ok {
+            for l in lines.lines() {
+                let e: Value = serde_json::from_str(l).unwrap();
+                if e["ev"] == "r" { bytes += e["len"].as_u64().unwrap(); }
+                if e["ev"] == "panic" { panics += 1; }
+                out.emit(e);
+            }
+        } else {
+            out.emit(json!({"ev": "reset", "transport": "udp-sim", "plan": serde_json::to_value(&plans[k]).unwrap()}));
+            out.emit(json!({"ev": "panic", "msg": format!("the process running this simulation died: {why}")}));
+            out.emit(json!({"ev": "run_end"}));
+            panics += 1;
+        }
     }
     let n = out.finish();
     json!({"events": n, "runs": count, "bytes_read": bytes, "panics": panics})
